@@ -310,6 +310,72 @@ def _shard_main(args):
     return ctx.result()
 
 
+def _child(conn, job):
+    import signal
+    # code under test may have installed handlers in the parent (PrintrunWriter
+    # hooks SIGTERM/SIGINT): a shard must stay killable
+    signal.signal(signal.SIGTERM, signal.SIG_DFL)
+    signal.signal(signal.SIGINT, signal.SIG_DFL)
+    try:
+        res = _shard_main(job)
+    except BaseException:
+        res = {"shard": job[3], "evaluations": 0, "steps": 0, "nontrivial": [],
+               "classes": {}, "samples": [], "violations": [], "excluded_known": {},
+               "notes": [], "inconclusive": 0, "error": traceback.format_exc()}
+    try:
+        conn.send(res)
+        conn.close()
+    finally:
+        # no atexit handlers, no waiting for stray non-daemon threads
+        os._exit(0)
+
+
+def run_shards(jobs, tier):
+    """One fresh forked process per shard (at most 16 at a time); results come
+    back through pipes; a shard that overruns its hard limit is killed and
+    reported as a harness error, never as a violation."""
+    from multiprocessing.connection import wait as mpwait
+    mpctx = multiprocessing.get_context("fork")
+    hard = (75 if tier == "quick" else 1500) * 2 + 180
+    pending = list(jobs)
+    running = {}
+    results = []
+    while pending or running:
+        while pending and len(running) < 16:
+            job = pending.pop(0)
+            parent, child = mpctx.Pipe(duplex=False)
+            pr = mpctx.Process(target=_child, args=(child, job))
+            pr.start()
+            child.close()
+            running[parent] = (pr, job, time.time())
+        ready = mpwait(list(running), timeout=1.0)
+        for conn in ready:
+            pr, job, t0 = running.pop(conn)
+            try:
+                results.append(conn.recv())
+            except EOFError:
+                results.append({"shard": job[3], "evaluations": 0, "steps": 0,
+                                "nontrivial": [], "classes": {}, "samples": [],
+                                "violations": [], "excluded_known": {}, "notes": [],
+                                "inconclusive": 0,
+                                "error": "shard process died without a result"})
+            conn.close()
+            pr.join(5)
+            if pr.is_alive():
+                pr.kill()
+        for conn, (pr, job, t0) in list(running.items()):
+            if time.time() - t0 > hard:
+                pr.kill()
+                running.pop(conn)
+                results.append({"shard": job[3], "evaluations": 0, "steps": 0,
+                                "nontrivial": [], "classes": {}, "samples": [],
+                                "violations": [], "excluded_known": {}, "notes": [],
+                                "inconclusive": 1,
+                                "error": f"shard {job[3]} exceeded the hard limit of {hard}s"})
+    results.sort(key=lambda r: r["shard"])
+    return results
+
+
 def write_replay(prop_id, v):
     rdir = os.environ.get("VERIF_REPLAY_DIR") or os.path.join(ROOT, "replays")
     os.makedirs(rdir, exist_ok=True)
@@ -383,12 +449,7 @@ def main(argv=None):
 
     # 3. the search, sharded
     jobs = [(prop_id, tier, seed, i, nshards) for i in range(nshards)]
-    if nshards == 1:
-        results = [_shard_main(jobs[0])]
-    else:
-        mpctx = multiprocessing.get_context("fork")
-        with mpctx.Pool(min(nshards, 16), maxtasksperchild=1) as pool:
-            results = pool.map(_shard_main, jobs, chunksize=1)
+    results = run_shards(jobs, tier)
 
     errors = [r["error"] for r in results if "error" in r]
     evaluations = sum(r["evaluations"] for r in results)
